@@ -157,21 +157,34 @@ static void c04_run(vf_case *c)
     } else {
         int nrhs = rng_int(r, 1, 3);
         ldc *B0 = malloc(sizeof(ldc) * (size_t)n * nrhs); for (int k = 0; k < n * nrhs; k++) B0[k] = P->round((2 * rng_unif(r) - 1) + (P->cplx ? (2 * rng_unif(r) - 1) * I : 0));
-        xdrv D; xdrv_init(&D, P, &A, o.rowmajor, nrhs, o.ldpad, 0, B0, 0);
-        superlu_options_t xo = o.opt; xo.Fact = DOFACT; xo.PrintStat = NO; xo.Equil = NO;   /* Equil off: B must stay bit-identical */
+        /* a share with equilibration really happening: rows and columns scaled by powers of two (singularity and exactness are
+           unaffected), Equil = YES. The driver then factors diag(R) A diag(C), so only the 'right-hand side untouched, no solve'
+           clauses are judged on a singular return (and the verdict below keeps to the rounding-immune inputs). */
+        int eqv = rng_bool(r, 0.35); vf_mat A2; const vf_mat *Ause = &A;
+        if (eqv) {
+            mat_copy(&A2, &A); int *re = malloc(sizeof(int) * (size_t)n), *ce = malloc(sizeof(int) * (size_t)n);
+            for (int i = 0; i < n; i++) { re[i] = rng_bool(r, 0.5) ? rng_int(r, -10, 10) : 0; ce[i] = rng_bool(r, 0.5) ? rng_int(r, -10, 10) : 0; }
+            for (int j = 0; j < n; j++) for (int_t k = A2.colptr[j]; k < A2.colptr[j + 1]; k++) A2.v[k] = A2.v[k] * ldexpl(1.0L, re[A2.rowind[k]] + ce[j]);
+            free(re); free(ce); Ause = &A2; vf_tag(c, "gssvx-equil=YES");
+        }
+        xdrv D; xdrv_init(&D, P, Ause, o.rowmajor, nrhs, o.ldpad, 0, B0, 0);
+        superlu_options_t xo = o.opt; xo.Fact = DOFACT; xo.PrintStat = NO; xo.Equil = eqv ? YES : NO;
         if (xo.ColPerm == MY_PERMC) memcpy(D.perm_c, mypc, sizeof(int) * (size_t)n);
         vf_snap b0, x0; snap_dense(P, &D.B, &b0); snap_dense(P, &D.X, &x0);
         xdrv_call(&D, &xo); info = D.info;
         if (info > 0 && info <= n) {
             vf_snap b1, x1; snap_dense(P, &D.B, &b1); snap_dense(P, &D.X, &x1);
-            if (!snap_same(&b0, &b1)) vf_viol(c, "B-modified-on-singular", "gssvx: info=%lld (Equil=NO) but B was modified", (long long)info);
+            if (!snap_same(&b0, &b1)) vf_viol(c, "B-modified-on-singular", "gssvx: info=%lld (Equil=%s, equed=%c) but B was modified", (long long)info, eqv ? "YES" : "NO", D.equed[0]);
             if (!snap_same(&x0, &x1) || D.stat.ops[SOLVE] != 0) vf_viol(c, "solve-attempted", "gssvx: info=%lld but X was written / a solve was performed", (long long)info);
             snap_free(&b1); snap_free(&x1);
-            vf_mat AT; const vf_mat *F = &A; if (o.rowmajor) { mat_transpose(&AT, &A); F = &AT; }
-            judge_singular(c, P, F, D.perm_r, D.perm_c, &D.L, &D.U, info, o.rowmajor ? "gssvx/NR" : "gssvx/NC");
-            if (o.rowmajor) mat_free(&AT);
+            if (eqv) { vf_tag(c, "equil-singular-return/equed=%c", D.equed[0]); c->nontrivial = 1; }
+            else {
+                vf_mat AT; const vf_mat *F = &A; if (o.rowmajor) { mat_transpose(&AT, &A); F = &AT; }
+                judge_singular(c, P, F, D.perm_r, D.perm_c, &D.L, &D.U, info, o.rowmajor ? "gssvx/NR" : "gssvx/NC");
+                if (o.rowmajor) mat_free(&AT);
+            }
         }
-        snap_free(&b0); snap_free(&x0); xdrv_free(&D); free(B0);
+        snap_free(&b0); snap_free(&x0); xdrv_free(&D); free(B0); if (eqv) mat_free(&A2);
     }
     /* clauses (c)/(d): the verdict itself */
     int reported = info > 0 && info <= n;
